@@ -4,6 +4,7 @@
    it needs appear as explicit premises.  Proofs are in proofs/Algebra.v. *)
 From Coq Require Import ZArith List Ring Ring_theory.
 From TS Require Import Algebra.
+From TS Require AMHL AMHLLink.
 Import ListNotations.
 
 (* ---- the definitions the statements are about ---- *)
@@ -146,6 +147,37 @@ Example C18_amhl_concrete_Z :
   release Z.sub (prefix_sumZ [3; 4; 5] 2) 5 = 7 /\ verify_lock_keyZ 7 7 /\ ~ verify_lock_keyZ 7 12.
 Proof. exact amhl_concrete_Z. Qed.
 
+(* ---------------- the AMHL class itself (model/AMHL.v, tied to tapescript/AMHL.py by the AMHL / AMHLKEY / AMHLREL
+   correspondence) computes the algebra above (proofs/AMHLLink.v) ----------------
+   For every scalar ring / point group / encodings / hash and every oracle answering the ed25519 primitives accordingly
+   (byte strings "represent" scalars through an arbitrary relation srep, as libsodium reduces its inputs).  The closed
+   statements, with every hypothesis explicit, are printed by Check. *)
+Definition C18_setup_computes_prefix_sum_points := @AMHLLink.amhl_setup_computes.
+Definition C18_every_view_passes_check_setup := @AMHLLink.amhl_check_setup_ok.
+Definition C18_views_spelled_out := @AMHLLink.amhl_check_setup_cases.
+Definition C18_final_key_opens_last_lock := @AMHLLink.amhl_final_key_ok.
+Definition C18_release_computes := @AMHLLink.amhl_release_computes.
+Definition C18_release_left_computes := @AMHLLink.amhl_release_left_computes.
+Definition C18_release_chain := @AMHLLink.amhl_release_chain.
+Definition C18_cascade_chain := @AMHLLink.amhl_cascade_chain.
+Check C18_setup_computes_prefix_sum_points.
+Check C18_every_view_passes_check_setup.
+Check C18_final_key_opens_last_lock.
+Check C18_release_left_computes.
+Check C18_release_chain.
+Check C18_cascade_chain.
+(* non-vacuity: all hypotheses hold in a five-element field, with a concrete run for n = 3 *)
+Definition C18_link_hypotheses_satisfiable := (AMHLLink.F5_setup_computes, AMHLLink.F5_check_setup_ok, AMHLLink.F5_final_key_ok, AMHLLink.F5_release_chain, AMHLLink.F5_cascade_chain, AMHLLink.F5_concrete_run).
+
+Print Assumptions C18_setup_computes_prefix_sum_points.
+Print Assumptions C18_every_view_passes_check_setup.
+Print Assumptions C18_views_spelled_out.
+Print Assumptions C18_final_key_opens_last_lock.
+Print Assumptions C18_release_computes.
+Print Assumptions C18_release_left_computes.
+Print Assumptions C18_release_chain.
+Print Assumptions C18_cascade_chain.
+Print Assumptions C18_link_hypotheses_satisfiable.
 Print Assumptions C18_amhl_points.
 Print Assumptions C18_amhl_check_setup.
 Print Assumptions C18_amhl_final_key.
